@@ -169,6 +169,10 @@ QUICK_FIXTURES = ("deny-list", "arrays-and-tuples", "various-enums", "simple-typ
                   "multiple-instance-types", "extraneous-enum")
 
 
+SETTINGS_FOR = {}
+CONV_SETTINGS = {"convert": [{"schema": {"type": "string"}, "type": "::std::string::String", "impls": ["Display", "FromStr", "Default"]}],
+                 "replace": [{"name": "NoSuchDefinition", "replace": "::std::string::String", "impls": []}]}
+
 def cases(ctx):
     """[(tag, document, explicit probes)]"""
     out = [("hand:" + n, d, p) for n, d, p in HAND]
@@ -179,7 +183,28 @@ def cases(ctx):
         base = os.path.basename(name)[:-5]
         if not thorough and base not in QUICK_FIXTURES: continue
         out.append(("fixture:" + name, doc, {}))
-    n = 400 if thorough else 40 - len(out)
+    # closedness / required / string constraints that reach the type through an allOf merge (merge.rs): a reference to an
+    # open object closed by a sibling, a closed object extended by a sibling, constraints split over two branches
+    pet = _obj({"name": STR, "age": INT}, ["name"])
+    out.append(("hand:allof-closing", dict(_obj({"s": _ref("StrictPet"), "t": _ref("Tagged")}, ["s"]), title="AllOfClosing", definitions={
+        "Pet": pet,
+        "StrictPet": {"allOf": [_ref("Pet"), {"type": "object", "properties": {"name": {}, "age": {}}, "additionalProperties": False}]},
+        "StrictPet2": {"allOf": [_ref("Pet"), _obj({"name": STR, "age": INT}, [], True)]},
+        "Tagged": {"allOf": [_ref("Pet"), _obj({"tag": {"type": "string", "maxLength": 3}}, ["tag"])]},
+        "Both": {"allOf": [_obj({"a": {"type": "string", "minLength": 2}}, ["a"]), _obj({"a": {"type": "string", "maxLength": 3}, "b": INT}, ["b"], True)]}}),
+        {"StrictPet": [("valid", {"name": "x"}), ("valid", {"name": "x", "age": 3}), ("additional", {"name": "x", "extra": 1}), ("required", {"age": 3}), ("type", {"name": 1})],
+         "StrictPet2": [("valid", {"name": "x"}), ("additional", {"name": "x", "zz": True})],
+         "Tagged": [("valid", {"name": "x", "tag": "abc"}), ("length", {"name": "x", "tag": "abcd"}), ("required", {"name": "x"}), ("required", {"tag": "a"})],
+         "Both": [("valid", {"a": "ab", "b": 1}), ("length", {"a": "a", "b": 1}), ("length", {"a": "abcd", "b": 1}), ("additional", {"a": "ab", "b": 1, "c": 0}), ("required", {"a": "ab"})],
+         "#": [("valid", {"s": {"name": "n"}}), ("additional", {"s": {"name": "n", "q": 1}})]}))
+    # the same constraint documents under settings that must not touch them: a conversion for the PLAIN string schema (and a
+    # replacement of an unrelated name) leaves every constrained string constrained
+    for n_, d_, p_ in HAND:
+        if n_ in ("lengths", "patterns", "strenums", "deny-lists"):
+            out.append(("hand:%s+conv" % n_, d_, p_)); SETTINGS_FOR["hand:%s+conv" % n_] = CONV_SETTINGS
+    for k in range(30 if thorough else 3):
+        out.append(("genallof:%d" % k, gen.gen_universe(ctx.rng, 3 + k % 4, gen.FEATURE_SETS["c05"] | {"allof", "allof_closed"}), {}))
+    n = 400 if thorough else 44 - len(out)
     for k in range(max(n, 8)):
         out.append(("gen:%d" % k, gen.gen_universe(ctx.rng, 2 + k % 6, gen.FEATURE_SETS["c05"]), {}))
     return out
@@ -703,7 +728,8 @@ def run(ctx):
     b = Batch(ctx, assertions=False, ops=OPS, ops_for="all")
     bc = []
     for tag, doc, probes in cs:
-        c = b.add_case([{"root": doc}], {}, tag=tag); c.settings = {}; c.probes = probes; bc.append(c)
+        st_ = SETTINGS_FOR.get(tag, {})
+        c = b.add_case([{"root": doc}], st_, tag=tag); c.settings = st_; c.probes = probes; bc.append(c)
     b.prepare()
     recs = []
     for c in bc:
